@@ -74,7 +74,11 @@ func goWalkPath(schemas ast.Schemas, args []ast.Argument, p ast.Path, cur ast.Ty
 		} else {
 			fs, ok := goStructFields(schemas, cur)
 			if !ok {
-				return "path-through-non-struct"
+				through := "unresolved"
+				if r, st := c16Resolve(schemas, cur); st == "ok" {
+					through = string(r.Kind)
+				}
+				return "(through " + through + "):path-through-non-struct"
 			}
 			found := false
 			for _, f := range fs {
@@ -108,6 +112,9 @@ func goValueWT(schemas ast.Schemas, args []ast.Argument, v ast.AssignmentValue) 
 		}
 		for _, ev := range v.Envelope.Values {
 			if why := goWalkPath(schemas, args, ev.Path, v.Envelope.Type); why != "" {
+				if i := strings.Index(why, "):"); strings.HasPrefix(why, "(") && i >= 0 {
+					return why[:i+2] + "envelope-" + why[i+2:]
+				}
 				return "envelope-" + why
 			}
 			if why := goValueWT(schemas, args, ev.Value); why != "" {
@@ -146,11 +153,20 @@ func goWT(schemas ast.Schemas, b ast.Builder) string {
 	for _, o := range b.Options {
 		for i, a := range o.Assignments {
 			if why := goAssignmentWT(schemas, b.For.Type, o.Args, a); why != "" {
-				return fmt.Sprintf("option %s[%d]:%s", o.Name, i, why)
+				return fmt.Sprintf("option %s[%d]%s", o.Name, i, sepWhy(why))
 			}
 		}
 	}
 	return ""
+}
+
+// sepWhy: "<why>" -> ":<why>", "(detail):<why>" -> " (detail):<why>" (the detail stays out of the reason,
+// which is what failure classes and known-finding patterns are keyed on)
+func sepWhy(why string) string {
+	if strings.HasPrefix(why, "(") {
+		return " " + why
+	}
+	return ":" + why
 }
 
 func goWTBits(schemas ast.Schemas, bs []ast.Builder) string {
